@@ -252,6 +252,16 @@ Theorem C11_in_order_same :
   pending c' all revs = pending c all revs.
 Proof. exact (in_order_same hash). Qed.
 
+(** Files older than the first (smallest) recorded revision are never named, in any
+    order and whether or not they have a revision: the window starts at [revs[0]]
+    (the code's note: "first can be set to the first checkpoint"). *)
+Theorem C11_nothing_before_first_revision :
+  forall (c : cfg) (all : list file) (revs : list rev) (r0 : rev) (f : file),
+  sorted_files all -> sorted_revs revs -> revs <> [] ->
+  In f (result_files (fst (pending c all revs))) ->
+  bytes_leb (r_version (hd r0 revs)) (f_version f) = true.
+Proof. exact (result_not_before_first hash). Qed.
+
 (** (G) apply-with-count agrees with the decision: [ExecuteN n] runs the first n pending
     files (all of them when n = 0), and returns Pending's error otherwise. *)
 Variable hash_eqb : hash -> hash -> bool.
@@ -301,6 +311,7 @@ Print Assumptions C11_out_of_order_linear_rejects.
 Print Assumptions C11_out_of_order_nonlinear_first.
 Print Assumptions C11_out_of_order_skipped.
 Print Assumptions C11_in_order_same.
+Print Assumptions C11_nothing_before_first_revision.
 Print Assumptions C11_execute_n_first_n.
 Print Assumptions C11_execute_n_error.
 Print Assumptions C11_reader_sorted.
@@ -348,6 +359,10 @@ Example C11_in_order_same_nonvacuous :
   ooo_files [49%N] [50%N] [xr 49 2 2; xr 50 2 2] ex_all = [] /\
   pending (cfg_of Linear) ex_all [xr 49 2 2; xr 50 2 2] = (PFiles [f3; f4], None) /\
   pending (cfg_of NonLinear) ex_all [xr 49 2 2; xr 50 2 2] = (PFiles [f3; f4], None).
+Proof. vm_compute. auto. Qed.
+
+Example C11_nothing_before_first_revision_nonvacuous :
+  pending (cfg_of NonLinear) ex_all [xr 50 2 2; xr 52 2 2] = (PFiles [f3], None).   (* 1 is ignored *)
 Proof. vm_compute. auto. Qed.
 
 (** (B) *)
